@@ -75,14 +75,9 @@ Proof.
     assert (Hroom : forall l2, room = Some l2 -> InvL l2 (issued s1)).
     { intros l2 Hr. unfold room in Hr.
       destruct (0 <? c_max_depth c); [|inversion Hr; subst; exact I1].
-      destruct single.
-      - destruct (c_max_depth c <=? active l1); [|inversion Hr; subst; exact I1].
-        destruct (c_drop_oldest c); [|discriminate].
-        destruct (sql_victim (o_gone o) l1) as [v|]; [|discriminate]. inversion Hr; subst.
-        unfold remove_id. apply invl_remove. exact I1.
-      - destruct (c_drop_oldest c).
-        + apply (sql_make_room_inv _ _ _ _ _ _ _ Hr). exact I1.
-        + destruct (c_max_depth c <? active l1 + Z.of_nat (length ies)); [discriminate|]. inversion Hr; subst. exact I1. }
+      destruct (c_drop_oldest c).
+      - apply (sql_make_room_inv _ _ _ _ _ _ _ Hr). exact I1.
+      - destruct (c_max_depth c <? active l1 + Z.of_nat (length ies)); [discriminate|]. inversion Hr; subst. exact I1. }
     destruct room as [l2|] eqn:Er; [|exact I1].
     destruct (nodupN (map fst ies)) eqn:End; simpl; [|exact I1].
     destruct (forallb (fun i => negb (has_id i l2)) (map fst ies)) eqn:Ef; simpl; [|exact I1].
